@@ -29,6 +29,7 @@ def run_check(tier, seed):
     rng = random.Random(seed)
     # well-formed requests only (the property quantifies over field valuations), comfortable capacity
     cases = [c for c in S.gen_cases(rng, n, frac_malformed=0.0, cap=1 << 17) if c['wf']]
+    cases += [c for c in S.gen_config_cases(rng, len(cases) + 100000) if c['wf']['op'] != 26]
     # requests near the size limits: full max_write (1 MiB) payloads and the largest request the transport buffer holds
     big = []
     for pl in ((1 << 20) - 81, (1 << 20) - 80, (1 << 20) - 79, 1 << 20, (1 << 20) + 4096 - 80):
